@@ -177,6 +177,10 @@ def base_field_src(fam, f, variant):
         if f.get("_table_var"):
             body = f["_table_var"]                    # a table object shared with another selector (class_src)
         d = sel_default_src(fam, f, variant)
+        if f["form"] == "fresh" and not f.get("_table_var"):
+            # every call constructs a new field / packet object (short-lived objects, recycled ids)
+            thunks = "{%s}" % ", ".join("%s: (lambda: %s)" % tuple(o.split(": ", 1)) for o in opts)
+            return "Ref(lambda pkt, **k: %s[pkt.%s](), default=%s)" % (thunks, f["key"], d)
         if f["form"] == "chooses":
             return "Ref(%s.chooses(%s), default=%s)" % (f["key"], body, d)
         return "Ref(lambda pkt, **k: %s[pkt.%s], default=%s)" % (body, f["key"], d)
